@@ -18,7 +18,7 @@ def run(ctx):
     from shapepy import EmptyShape, WholeShape, IntegrateShape, ShapePloter
     rng, drv = ctx.rng, ctx.drv
     # ---------- (1) histories against the heap model
-    n = 40 if ctx.quick else 2000
+    n = 40 if ctx.quick else 1000
     for it in range(n):
         ops = history.rand_history(rng, rng.randint(4, 14), nvars=rng.randint(2, 4))
         objs, mops, outs = history.run_real(rng, ops)
@@ -34,6 +34,13 @@ def run(ctx):
         ctx.check(sep, "model lost separation (should be impossible: proved)", desc)
         for v, j in objs.items():
             ctx.check(shapes.geom(j) == mvars.get(v), "geometry after history differs from the heap model", {**desc, "var": v}, mvars.get(v), shapes.geom(j))
+            if mvars.get(v):
+                # the object must also ANSWER like its geometry: orientation / signed length and one membership query
+                exp_len = history.signed_length(mvars[v])
+                ctx.check(abs(float(j) - exp_len) <= 1e-9 * abs(exp_len), "object does not answer like its geometry after the history (signed length)", {**desc, "var": v}, exp_len, float(j))
+                from shapepy import SimpleShape
+                far = (F(1000), F(777))
+                ctx.check((far in SimpleShape(j)) == (exp_len < 0), "object does not answer like its geometry after the history (far point)", {**desc, "var": v})
         vs = list(objs)
         for a in vs:
             for b in vs:
@@ -73,7 +80,7 @@ def run(ctx):
             S.rotate(90, degrees=True); S.move(-1, 4)
             ctx.check(ctrl_snapshot(R2) == r2, "transforming the source changed an earlier curved result", {"shape": cname, "producer": pname})
     # ---------- (2) operators and queries on shapes of every kind
-    m = 120 if ctx.quick else 2500
+    m = 120 if ctx.quick else 800
     binops = ["or", "and", "sub", "xor", "add", "mul"]
     for it in range(m):
         ka, kb = rng.choice(shapes.KINDS), rng.choice(shapes.KINDS)
